@@ -50,3 +50,57 @@ Proof.
   - repeat constructor; unfold wf; cbn; lia.
   - lia.
 Qed.
+
+(* ================================================================================================================
+   Bridge (coq/Bridge.v, BridgeProofs.v): the `types` argument above is, in the code, the set of names of
+   type_.descendants.  With the type-system model of C10 (TS.v) in place of the bare list: for every well-formed type
+   system (every one a history of create_type / create_feature can reach), every registered T, every duplicate-free
+   arrangement `types` of the names T.descendants yields (set iteration order), select_covered / select_covering return,
+   as a multiset, exactly the added annotations whose type is T or a transitive subtype of T (isa on the flattened
+   schema, which is `below` = the reflexive-transitive closure of the declared supertype relation) with the span
+   condition. *)
+From Cassis Require Import TS TSProofs Schema Bridge BridgeProofs.
+
+Theorem C07_select_covered_subtree_exact : forall ts T tT adds types b e, WFh ts -> find_ty ts T = Some tT ->
+  NoDup types -> (forall d, In d types <-> In d (desc_names ts T)) ->
+  Forall (fun a => Index.wf (a_key a)) adds -> b <= e ->
+  Permutation (select_covered_view types (build adds) b e)
+              (map a_key (filter (fun a => isa (flatten ts) (a_type a) T && covered b e (a_key a)) adds))
+  /\ forall n, isa (flatten ts) n T = true <-> below ts T n.
+Proof. exact select_covered_subtree_exact. Qed.
+Print Assumptions C07_select_covered_subtree_exact.
+
+Theorem C07_select_covering_subtree_exact : forall ts T tT adds types b e, WFh ts -> find_ty ts T = Some tT ->
+  NoDup types -> (forall d, In d types <-> In d (desc_names ts T)) ->
+  Permutation (select_covering_view types (build adds) b e)
+              (map a_key (filter (fun a => isa (flatten ts) (a_type a) T && covering b e (a_key a)) adds))
+  /\ forall n, isa (flatten ts) n T = true <-> below ts T n.
+Proof. exact select_covering_subtree_exact. Qed.
+Print Assumptions C07_select_covering_subtree_exact.
+
+(* the same for the type system after any history from TypeSystem(): no well-formedness premise left *)
+Theorem C07_select_covered_subtree_reachable : forall ops T tT adds types b e, let ts := final_ts ops init_ts in
+  find_ty ts T = Some tT -> NoDup types -> (forall d, In d types <-> In d (desc_names ts T)) ->
+  Forall (fun a => Index.wf (a_key a)) adds -> b <= e ->
+  Permutation (select_covered_view types (build adds) b e)
+              (map a_key (filter (fun a => isa (flatten ts) (a_type a) T && covered b e (a_key a)) adds))
+  /\ forall n, isa (flatten ts) n T = true <-> below ts T n.
+Proof. exact select_covered_subtree_reachable. Qed.
+Print Assumptions C07_select_covered_subtree_reachable.
+
+Theorem C07_select_covering_subtree_reachable : forall ops T tT adds types b e, let ts := final_ts ops init_ts in
+  find_ty ts T = Some tT -> NoDup types -> (forall d, In d types <-> In d (desc_names ts T)) ->
+  Permutation (select_covering_view types (build adds) b e)
+              (map a_key (filter (fun a => isa (flatten ts) (a_type a) T && covering b e (a_key a)) adds))
+  /\ forall n, isa (flatten ts) n T = true <-> below ts T n.
+Proof. exact select_covering_subtree_reachable. Qed.
+Print Assumptions C07_select_covering_subtree_reachable.
+
+(* non-vacuity: a two-level subtree, an annotation of an unrelated type with a covered span stays out *)
+Example C07_subtree_premises_hold :
+  let ops := [OCreateType "a.A" "uima.tcas.Annotation" None; OCreateType "a.B" "a.A" None; OCreateType "a.X" "uima.tcas.Annotation" None] in
+  let ts := final_ts ops init_ts in
+  let adds := [mkAnn "a.B" (mkKey 2 5 1); mkAnn "a.X" (mkKey 3 4 2); mkAnn "a.A" (mkKey 2 2 3)] in
+  desc_names ts "a.A" = ["a.A"; "a.B"] /\ (exists t, find_ty ts "a.A" = Some t) /\
+  map ko (select_covered_view (desc_names ts "a.A") (build adds) 2 5) = [3; 1].
+Proof. vm_compute. repeat split. eexists. reflexivity. Qed.
